@@ -16,7 +16,7 @@ import warnings
 from harness.core import q, z, coq_list, coq_bool, coq_opt, coq_str
 
 PID = "C12"
-GEN_GROUPS = []
+GEN_GROUPS = ["C12Shape"]
 TARGETS = ["coq/Props/C12.vo", "coq/Model/Network.vo", "coq/Model/Current.vo"]
 CASES = {"quick": 300, "thorough": 8000}
 CORR_HEADER = ("From Coq Require Import ZArith QArith List String.\n"
